@@ -6,6 +6,7 @@ import (
 	"errors"
 	"io"
 	"net"
+	"sync/atomic"
 	"time"
 )
 
@@ -24,13 +25,23 @@ type zzConn struct {
 	werr    bool
 }
 
+// a read from a socket is a system call: other goroutines run before it and between its completion and whatever the
+// caller does with the bytes (a scheduling point for the explorer on both sides of the copy)
+var zzSysCall17 atomic.Int32
+
 func (c *zzConn) Read(p []byte) (int, error) {
 	c.reads++
 	if c.reads == 1 {
-		return copy(p, c.first), nil
+		zzSysCall17.Add(1)
+		n := copy(p, c.first)
+		zzSysCall17.Add(1)
+		return n, nil
 	}
 	if c.reads == 2 && len(c.payload) > 0 {
-		return copy(p, c.payload), nil
+		zzSysCall17.Add(1)
+		n := copy(p, c.payload)
+		zzSysCall17.Add(1)
+		return n, nil
 	}
 	verifBlockForever()
 	return 0, io.EOF
